@@ -230,6 +230,28 @@ def parts_of(frame):
     return {"itext": itext, "rootKids": [], "rest": mk[i + 1:], "body": body["k"]}
 
 
+def observation(frame):
+    """what C01 observes of a document frame (compared between implementation and model): the names
+    of the skeleton elements, the namespace context they establish, the primary instance root and its
+    id.  Attribute order, other attributes and the order of the other model children are not observed
+    (a change there must not disturb this check; frame equality is only counted in the evidence)."""
+    def nsdecls(el):
+        return sorted([k, v] for k, v in el["a"] if k == "xmlns" or k.startswith("xmlns:"))
+    try:
+        head, body = frame["k"]
+        title, model = head["k"]
+        inst = next(k for k in model["k"] if k.get("t", "").split(":")[-1] == "instance")
+        (root,) = inst["k"]
+        return {
+            "html": frame["t"], "ns": nsdecls(frame), "head": [head["t"], nsdecls(head)], "body": [body["t"], nsdecls(body)],
+            "title": [title["t"], nsdecls(title)], "model": [model["t"], nsdecls(model)],
+            "instance": [inst["t"], nsdecls(inst)], "root": [root["t"], nsdecls(root)],
+            "id": dict(map(tuple, root["a"])).get("id"),
+        }
+    except (ValueError, KeyError, StopIteration):
+        return None
+
+
 def correspondence(ctx, form, ev):
     pyx = ev["res"][False].get("_pyxform")
     fields = fields_of(pyx) if pyx is not None else None
@@ -248,10 +270,12 @@ def correspondence(ctx, form, ev):
         m = ctx.driver.call("asm.doc", fields=fields, pretty=pretty, fid=ev["fid"], **parts)
         if not m["ok"]:
             ctx.mismatch(f"assembly model output not well-formed (pretty={pretty})", form, "ok", "not ok")
-        elif not xmlutil.tree_eq(m["frame"], v["frame"]):
-            ctx.mismatch(f"document frame (pretty={pretty})", form, v["frame"], m["frame"])
+        elif observation(m["frame"]) != observation(v["frame"]):
+            ctx.mismatch(f"skeleton observation (pretty={pretty})", form, observation(v["frame"]), observation(m["frame"]))
         elif m["rootId"] != v["rootId"] or (m["skeleton"] != v["skeleton"]):
             ctx.mismatch(f"skeleton verdict / root id (pretty={pretty})", form, [v["skeleton"], v["rootId"]], [m["skeleton"], m["rootId"]])
+        else:
+            ctx.count("frame_equal" if xmlutil.tree_eq(m["frame"], v["frame"]) else "frame_differs")
     ctx.count("model:answered")
 
 
